@@ -415,8 +415,8 @@ def classify_exc(e):
 def impl_merge(lj, rj, cfg, via="kw", limit_s=5.0):
     """Merger(l).merge_with(r) on freshly built documents: {"ok": canonical doc} | {"err": class, "site"?}."""
     from yamlpath.merger import Merger
-    old = signal.signal(signal.SIGALRM, _alarm)
-    signal.setitimer(signal.ITIMER_REAL, limit_s)
+    old = signal.signal(signal.SIGVTALRM, _alarm)
+    signal.setitimer(signal.ITIMER_VIRTUAL, limit_s)
     try:
         mc = make_config(cfg, via)
         m = Merger(mc.log, codec.json_to_ruamel(lj), mc)
@@ -431,8 +431,8 @@ def impl_merge(lj, rj, cfg, via="kw", limit_s=5.0):
     except Exception as e:  # noqa
         return classify_exc(e)
     finally:
-        signal.setitimer(signal.ITIMER_REAL, 0)
-        signal.signal(signal.SIGALRM, old)
+        signal.setitimer(signal.ITIMER_VIRTUAL, 0)
+        signal.signal(signal.SIGVTALRM, old)
 
 
 # --------------------------------------------------------------------------- comparison helpers
